@@ -60,6 +60,8 @@ class REPEX_state:
     def __init__(self, config, minus=False):
         """Initiate REPEX given confic dict from *toml file."""
         self.config = config
+        # per-run path data: not shared with other REPEX_state instances
+        self.traj_data = {}
         # storage of additional trajectory files
         self.pstore.keep_traj_fnames = config.get("output", {}).get(
             "keep_traj_fnames", []
